@@ -3,25 +3,14 @@
 
 #![allow(clippy::type_complexity)]
 
-pub mod alloc_count;
-pub mod engine;
-pub mod exact;
-pub mod gen;
-pub mod items;
-pub mod props;
-pub mod targets;
-
-use engine::*;
+use egverif::engine::*;
+use egverif::{alloc_count, props, BUILD};
 use serde_json::Value;
 use std::time::Instant;
 
 #[global_allocator]
 static GLOBAL: alloc_count::Counting = alloc_count::Counting;
 
-#[cfg(feature = "fixed_point")]
-pub const BUILD: &str = "fixed_point";
-#[cfg(not(feature = "fixed_point"))]
-pub const BUILD: &str = "default";
 
 fn usage() -> ! {
     eprintln!(
@@ -127,6 +116,56 @@ fn main() {
                 }
             }
         }
+        "fuzz-replay" => {
+            // egverif fuzz-replay <Cxx> <crash file>: run a libFuzzer input through the plain
+            // driver; on failure write a replay file (tape) and print the VIOLATION line.
+            if args.len() < 4 {
+                usage();
+            }
+            let Some(prop) = props.iter().find(|p| p.id == args[2]) else {
+                eprintln!("unknown property {}", args[2]);
+                std::process::exit(64);
+            };
+            let data = std::fs::read(&args[3]).expect("cannot read fuzz input");
+            let run = Run { root: root.clone(), tier: Tier::Thorough, seed, threads, known: load_known(&root), strict: false, build: BUILD };
+            start_watchdog(900);
+            match egverif::fuzz::run_input(prop, &data, true) {
+                None => println!("property {} has no tape sub-check", prop.id),
+                Some(o) => match o.report.result {
+                    Ok(()) => println!("fuzz input passes: {}", o.report.desc.unwrap_or_default()),
+                    Err(f) => {
+                        if run.known.iter().any(|k| k.property == prop.id && k.status == "known" && k.sig == f.sig) {
+                            println!("KNOWN-FINDING: property={} {}", prop.id, f.sig);
+                        } else {
+                            let v = Violation { sub: o.sub.to_string(), fail: f.clone(), tape: Some(o.tape.clone()), case: o.report.desc.clone().unwrap_or_default() };
+                            let path = write_replay(&run, prop, &v);
+                            println!("violation in {}/{} [{}] (found by libFuzzer): {}\n  case: {}\n  detail: {}", prop.id, o.sub, BUILD, f.sig, v.case, f.detail);
+                            println!("VIOLATION property={} replay={}", prop.id, path);
+                            std::process::exit(1);
+                        }
+                    }
+                },
+            }
+        }
+        "fuzz-evidence" => {
+            // egverif fuzz-evidence <Cxx> <target> <runs> <corpus files> <crashes> <seconds>: add
+            // the libFuzzer campaign to the evidence file written by the preceding run
+            if args.len() < 8 {
+                usage();
+            }
+            let path = format!("{}/evidence/{}.json", root, args[2]);
+            let text = std::fs::read_to_string(&path).expect("evidence file missing");
+            let mut v: Value = serde_json::from_str(&text).expect("evidence not JSON");
+            let num = |s: &str| s.parse::<u64>().unwrap_or(0);
+            v["coverage"]["libfuzzer"] = serde_json::json!({
+                "target": args[3], "runs": num(&args[4]), "corpus_files_after": num(&args[5]), "crashes": num(&args[6]), "seconds": num(&args[7]),
+                "note": "coverage-guided campaign on the same decoders and oracles (debug assertions and overflow checks on); runs are in addition to 'evaluations'",
+            });
+            if num(&args[6]) > 0 {
+                v["violations"] = serde_json::json!(v["violations"].as_u64().unwrap_or(0) + num(&args[6]));
+            }
+            std::fs::write(&path, serde_json::to_string_pretty(&v).unwrap()).expect("cannot write evidence");
+        }
         "run" => {
             if args.len() < 4 {
                 usage();
@@ -188,6 +227,7 @@ fn run_property(
     let mut builds = vec![BUILD.to_string()];
     let mut all_exhaustive = true;
     let mut child_violation = false;
+    let mut harness_bug = false;
 
     // 1. fixed_point part (delegated to the second binary)
     let has_fp = prop.subs.iter().any(|s| s.fp);
@@ -303,6 +343,12 @@ fn run_property(
         );
         total.merge(stats);
         if let Some(v) = viol {
+            if v.fail.sig.starts_with("harness_panic:") {
+                let path = write_replay(run, prop, &v);
+                println!("INCONCLUSIVE: the check {}/{} itself panicked ({}); this is a defect of the check, no verdict (case saved as {})", prop.id, v.sub, v.fail.detail, path);
+                harness_bug = true;
+                continue;
+            }
             let path = write_replay(run, prop, &v);
             println!(
                 "violation in {}/{} [{}]: {}\n  case: {}\n  detail: {}",
@@ -348,6 +394,8 @@ fn run_property(
     );
     if nviol > 0 {
         1
+    } else if harness_bug {
+        2
     } else {
         0
     }
